@@ -491,13 +491,14 @@ class C13(Proto):
 class C14(Proto):
     id = "C14"
     lean_module = "Props.C14"
-    streams = [("C14", "knxdrv", 0.85), ("C14f", None, 0.1), ("C17rt", None, 0.05)]
+    streams = [("C14", "knxdrv", 0.8), ("C14f", "knxdrv", 0.1), ("C17rt", None, 0.05), ("C14rt", None, 0.05)]
     rule = ("router scripts as for C13 with lost indications in half of the steps, one script of 300 steps; retained list and "
             "retransmissions compared exactly with the model and recomputed by the monitor from the transmissions observed. "
-            "Stream C14f (monitor only): batches of resends in which the socket refuses the write of one or two particular "
+            "Stream C14f (compared with the batch model Knx.RtrF): batches of resends in which the socket refuses the write of one or two particular "
             "telegrams (front, middle, end of the batch): the others are still retransmitted, in order, and only they are "
             "retained. Stream C17rt (real time): routing indications to a waiting / absent / intermittent reader are handed "
-            "to Inbound exactly once and in order.")
+            "to Inbound exactly once and in order. Stream C14rt (real time): a lost indication taken in while a Send is "
+            "inside the socket write - the resend covers everything transmitted by the time the lock is obtained.")
     technique = "Lean 4 proof (list laws of the retainer, induction over the grant chain and over label sequences) + exact trace correspondence under testing/synctest"
     level_text = ("Theorems: the retained list never exceeds the configured count (32 when 0) in any reachable state (induction over "
                   "label sequences and over the lock hand-off chain); failed transmissions are not retained; an idle client told "
@@ -721,6 +722,7 @@ def run(prop, tier, seed):
             # + the correspondence of the drivers built from them with the code as it is now.
             strict_log = proof_log
             changed = runner.changed_declarations()
+            not_followed = runner.extraction_incomplete()
 
             def rebuild():
                 ok2, log2 = runner.lake_build(modules)
@@ -747,8 +749,11 @@ def run(prop, tier, seed):
                             ok2, log2 = rebuild()
                             if ok2:
                                 items = runner.broken_theorems(strict_log)[:8] or ["lake build " + P.lean_module]
+                                # a construct the extractor translates was rewritten into a form it does not
+                                # know: the regenerated facts are incomplete, theorems over them say nothing
                                 strict_broken = dict(theorems=items, log=strict_log[-2500:], changed_declarations=changed[:40],
-                                                     semantic=not runner.only_followability(items))
+                                                     not_followed=not_followed[:10],
+                                                     semantic=not (not_followed or runner.only_followability(items)))
                                 proof_ok, gen_ok, proof_log = True, True, log2
         thms, audit_ok, audit_log = [], False, ""
         if proof_ok:
@@ -881,8 +886,10 @@ def run(prop, tier, seed):
         lines.append("NOTE: property=%s the theorems over the facts regenerated from the source no longer check (%s); "
                      "the recorded model (extract/baseline) and its correspondence with the code as it is now hold on "
                      "%d operations, no failing input%s" % (prop, ", ".join(strict_broken["theorems"][:3]), evaluations,
-                                                           ("; edited declarations: " + "; ".join(strict_broken["changed_declarations"][:6]))
-                                                           if strict_broken.get("changed_declarations") else ""))
+                                                           (("; edited declarations: " + "; ".join(strict_broken["changed_declarations"][:6]))
+                                                            if strict_broken.get("changed_declarations") else "") +
+                                                           (("; not followed by the extractor: " + "; ".join(strict_broken["not_followed"][:4]))
+                                                            if strict_broken.get("not_followed") else "")))
 
     ev = dict(
         property_id=prop, tier=tier, seed=seed, level="proof",
